@@ -1,6 +1,6 @@
 (* C14 — user classes are constructed once with exactly the grammar attributes, and are left
    exactly as they were after loading, successful or not. *)
-From TxV Require Import Core.Base Gen.SrcUserCls Model.UserCls Proofs.UserClsProofs Proofs.UserClsLogProofs Proofs.UserClsInitProofs Proofs.UserClsSrcProofs.
+From TxV Require Import Core.Base Gen.SrcUserCls Model.UserCls Proofs.UserClsProofs Proofs.UserClsLogProofs Proofs.UserClsInitProofs Proofs.UserClsAccessProofs Proofs.UserClsSrcProofs.
 
 (* Restoration, for EVERY history of the load machine: any sequence of operations (any mix of
    main loads, imported models, loads started from callbacks while another load runs, and a
@@ -72,6 +72,53 @@ Theorem C14_init_exactly_once_on_success : forall d0 ops c rest,
   forall x, In x (c_objs c) -> In x (inited (s_log s)).
 Proof. exact src_all_initialised_at_finish. Qed.
 Print Assumptions C14_init_exactly_once_on_success.
+
+(* Attribute access DURING loading (the replacement functions of
+   _replace_user_attr_methods_for_class, modelled by acting_set / acting_get / acting_del).
+   In every state of every history - whatever loads are running, nested or not - setting,
+   reading or deleting an attribute of an object that is not under construction (an initialised
+   object, an object of an earlier or of a nested load, any other instance) is handled by exactly
+   what the class defined before loading: its own __setattr__/__getattribute__/__delattr__ if it
+   has one, else the inherited behaviour. *)
+Theorem C14_own_accessors_during_load : forall d0 ops x hit,
+  (forall a, d0 a <> TxFn) ->
+  let k := s_cls (run replace_names restore_names (init d0) ops) in
+  stored k x = false ->
+  acting_set k x = of_slot (d0 n_setattr) /\
+  acting_get k x hit = of_slot (d0 n_getattribute) /\
+  acting_del k x hit = of_slot (d0 n_delattr).
+Proof. exact src_own_accessors_act. Qed.
+Print Assumptions C14_own_accessors_during_load.
+
+(* ... while an object under construction (stored; by C14_counted it belongs to a model still
+   under construction) of an instrumented class collects its attributes in the storage; a name
+   it does not have yet is looked up the inherited way. *)
+Theorem C14_storage_for_objects_under_construction : forall d0 ops x,
+  (forall a, d0 a <> TxFn) ->
+  let k := s_cls (run replace_names restore_names (init d0) ops) in
+  stored k x = true -> k_count k <> 0 ->
+  acting_set k x = ToStorage /\ acting_get k x true = ToStorage /\ acting_del k x true = ToStorage /\
+  acting_get k x false = ToBase.
+Proof. exact src_storage_acts. Qed.
+Print Assumptions C14_storage_for_objects_under_construction.
+
+(* methods outside the replaced tuple (e.g. __getattr__) are never touched, at any time *)
+Theorem C14_other_methods_untouched : forall d0 ops a,
+  ~ In a replace_names -> k_dict (s_cls (run replace_names restore_names (init d0) ops)) a = d0 a.
+Proof. exact src_other_methods_untouched. Qed.
+Print Assumptions C14_other_methods_untouched.
+
+(* non-vacuity: two models being loaded (count 2), object 2 still stored, a nested load whose
+   object 5 is initialised: its accessors are the class's own ones although the class is
+   instrumented *)
+Example C14_access_nonvacuous :
+  let d0 := fun a => if str_eqb a n_setattr then UserFn 1 else Absent in
+  let k := s_cls (run replace_names restore_names (init d0)
+             [Begin true false true; Alloc; Begin true false true; Alloc; Complete; ResolveOk; EndModel; Init true]) in
+  k_count k = 1 /\ stored k 2 = true /\ stored k 5 = false /\
+  acting_set k 5 = ToUser 1 /\ acting_get k 5 false = ToBase /\ acting_set k 2 = ToStorage.
+Proof. vm_compute. repeat split; reflexivity. Qed.
+Print Assumptions C14_access_nonvacuous.
 
 (* non-vacuity: a main model with an imported model and a failure, then a successful load *)
 Example C14_nonvacuous :
